@@ -225,7 +225,7 @@ func replay(b *behaviour, e *env, variant int) (key, detail string, at int, obs 
 			if kind == "hookfail" || kind == "hookcancel" {
 				// the hook of the block requested now will fail the sync / cancel the caller's context
 				for k := 1; k <= n; k++ {
-					if len(path) > 10 && path[len(path)-len(ch.Cids[k].String()):] == ch.Cids[k].String() {
+					if strings.HasSuffix(path, "/"+ch.Cids[k].String()) {
 						mu.Lock()
 						if kind == "hookfail" {
 							failBlock = k
